@@ -493,6 +493,32 @@ def runLive20 (kv : List (String × String)) : IO Res := do
       if got != want then
         return .propfail s!"thread {t.tid}: stack {if got then "included" else "excluded"}, but ip {ip} / its stack {if want then "do" else "do not"} reference the principal mapping {principal}" tags
     | _ => pure ()
+  -- the soft error: reported iff the thread of the crash context does not reference the principal mapping
+  -- (no crash context, no mapping at the address, or neither its instruction pointer nor an aligned stack word
+  -- at or above its stack pointer points into it)
+  match get kv "softtree" with
+  | some tree =>
+    let reported := (splitList tree ",").any (fun p => p == "PrincipalMappingNotReferenced")
+    let references : Option Bool :=
+      match lc.cfg.crash, principal with
+      | some _, some (lo, hi) =>
+        let ip := greg lc.cfg.gregs REG_RIP
+        let sp := greg lc.cfg.gregs REG_RSP
+        if lo ≤ ip && ip < hi then some true else
+        match getStackInfo ms 4096 sp with
+        | .ok (valid, len) =>
+          let raw : List (Option UInt8) := (List.range len).map (fun k => memAt lc.mem (valid + k))
+          if raw.any Option.isNone then none       -- the snapshot does not cover that stack: no prediction
+          else some (stackHasPointer lo hi (raw.map (·.getD 0)) (sp - valid))
+        | _ => some false
+      | _, _ => some false
+    match references with
+    | some r =>
+      tags := (if r then "crash.references" else "crash.noreference") :: tags
+      if reported == r then
+        return .propfail s!"soft error PrincipalMappingNotReferenced {if reported then "reported" else "missing"} although the crash thread {if r then "references" else "does not reference"} the principal mapping" tags
+    | none => tags := "crash.unpredicted" :: tags
+  | none => pure ()
   return .ok tags (some s!"{lc.threads.length}/{principal.isSome}/{tags.eraseDups}")
 
 def isTrailWs (b : UInt8) : Bool := b == 32 || (9 ≤ b && b ≤ 13)
